@@ -353,5 +353,28 @@ def run(F, rep, tier):
             rep.viol('R16.7', 'json_decode|Number|as_i64', 'json_decode does not try Number::as_i64 before falling back to as_f64 (as_i64 calls: %d): negative integers beyond 2^53 come back rounded' % len(i64s), jb.loc(0))
     except (IndexError, CheckError) as e:
         rep.error('R16.7', 'json_decode not found: %s' % e)
+    # ---------------- R16.8
+    rep.rule('R16.8', 'repr of a number lexes back: NNum::repr renders every component with the plain Display form (`{}` + suffix q / f / j, no '
+             'flags, width or precision) - Debug / LowerExp switch floats to exponent notation, and `1e-7f` is a float followed by an identifier')
+    rp = 'nnum::NNum::repr'
+    if not F.has_fn(rp):
+        rep.error('R16.8', rp + ' missing')
+    else:
+        rb8 = F.body(rp)
+        ctors = [c for c in rb8.calls if 'fmt::rt::Argument' in c.target and c.target.rsplit('::', 1)[-1].startswith('new_')]
+        badc = [c for c in ctors if not c.target.endswith('new_display')]
+        badt = []
+        for c, tpl in fmt_templates(rb8):
+            if tpl is None:
+                badt.append((c, 'undecodable'))
+                continue
+            for k_, d_ in tpl:
+                if k_ == 'arg' and (d_['flags'] is not None or d_['width'] is not None or d_['precision'] is not None):
+                    badt.append((c, d_))
+        if ctors and not badc and not badt:
+            rep.ok('R16.8', rp, '%d component(s), all plain Display' % len(ctors))
+        else:
+            c0 = (badc or [x[0] for x in badt])[0]
+            rep.viol('R16.8', rp + '|format', 'NNum::repr formats a component with %s: the text of a float then uses a notation (exponent form, padding) that does not evaluate back to the number - eval(repr(1e-7)) fails' % (c0.target.rsplit('::', 1)[-1] if badc else 'format flags %s' % (badt[0][1],)), c0.loc())
     rep.undecided += ['int(str(n)) == n and the other round trips as equations', 'base64 / gzip / JSON codecs themselves (dependencies)']
     return META
